@@ -15,7 +15,7 @@
 EXTENDS Integers, Sequences, FiniteSets, TLC
 
 Corruptions == <<"no-underscore", "short-section", "digit-section", "no-equals", "no-open-quote", "no-close-quote", "trailing-garbage",
-                 "trailing-space", "leading-space", "empty-line", "single-quotes">>
+                 "trailing-space", "leading-space", "empty-line", "single-quotes", "cut-behind-open-quote", "cut-behind-equals">>
 
 \* key pattern -> conversion class (first match wins); "*" = any other key of the section
 Conv == <<
